@@ -28,7 +28,7 @@ def encode(sc):
     w = W()
     w.u64(sc["seed"]).u8(sc["pool"]).u8(sc["pool2"]).u8(sc["caller_kind"]).u8(sc["caller_idx"])
     w.u8(sc["api"]).u32(sc["flags"]).u16(sc["nb"]).u8(sc["pass_src"])
-    w.u32(sc["fail_mask"]).u8(sc["skip_first"]).u16(sc["cb_work_us"])
+    w.u32(sc["fail_mask"]).u8(sc["skip_first"]).u16(sc["cb_work_us"]).u8(sc.get("caller_last", 0)).u8(sc.get("others_expected", 0))
     w.u16(sc["perturb"]).u16(sc["sleep_us"]).u64(sc["point_mask"])
     w.u8(sc["wkind"]).u16(len(sc["wpos"]))
     for k in sc["wpos"]:
@@ -129,6 +129,23 @@ def gen_scenarios(tier, seed):
         add(mk(rng, family="one-by-one", pool=pool, caller_kind=1, caller_idx=rng.below(pool), api=1,
                flags=F_ONE_BY_ONE | rng.choice([0, F_SELF_SKIP, F_SELF_DIRECT]), nb=rng.choice([3, 10]), pass_src=rng.below(2),
                cb_work_us=rng.choice([100, 500]), perturb=rng.choice([300, 700]), sleep_us=500, point_mask=(1 << 6) | (1 << 2) | (1 << 3)))
+    # G: one-by-one with a never-started thread at the first / middle / last position among the non-caller threads
+    for rep in range(scale):
+        for pool in (3, 4, 8):
+            for pos in ("first", "middle", "last"):
+                caller = rng.below(pool)
+                others = [t for t in range(pool) if t != caller]
+                down = {"first": others[0], "middle": others[len(others) // 2], "last": others[-1]}[pos]
+                add(mk(rng, family="one-by-one-down-" + pos, pool=pool, caller_kind=1, caller_idx=caller, api=1,
+                       flags=F_ONE_BY_ONE | rng.choice([0, 0, F_SELF_SKIP, F_SELF_DIRECT, F_FORCE]), nb=rng.choice([1, 3]), pass_src=rng.below(2),
+                       fail_mask=1 << down, perturb=rng.choice([0, 200])))
+    # H: completion form, the caller's own (direct) callback is the last one to finish
+    for rep in range(scale):
+        for pool in (2, 4, 8):
+            for caller in (pool - 1, 0, rng.below(pool)):
+                add(mk(rng, family="caller-finishes-last", pool=pool, caller_kind=1, caller_idx=caller, api=1,
+                       flags=F_SELF_DIRECT | rng.choice([0, 0, F_FAIL_DIRECT]), nb=rng.choice([1, 4]), pass_src=rng.below(2),
+                       caller_last=1, others_expected=pool - 1, perturb=rng.choice([0, 100])))
     for i, sc in enumerate(out):
         sc["index"] = i
     return out
@@ -147,7 +164,7 @@ def check_log(sc, events, part):
     for tid, evs in thr.items():
         for e in evs:
             if e[2] == EV_BS_CALL:
-                B[e[4]] = dict(id=e[4], api=e[3], flags=e[5], call_ts=e[0], ret=None, cbs=[], done=[], wfail_caller=0, wfail_other=0, tid=tid)
+                B[e[4]] = dict(id=e[4], api=e[3], flags=e[5], call_ts=e[0], ret=None, cbs=[], done=[], wfail_caller=0, wfail_other=0, tid=tid, writes=[])
     for tid, evs in thr.items():
         open_call = None
         for pos, e in enumerate(evs):
@@ -159,7 +176,7 @@ def check_log(sc, events, part):
                 B[a]["ret"] = dict(ts=ts, rc=rc, exits_seen=c & 0xffffffff, sent=b >> 32, failed=b & 0xffffffff)
                 open_call = None
             elif kind == EV_CB_ENTER:
-                B.setdefault(a, dict(id=a, api=-1, flags=0, call_ts=0, ret=None, cbs=[], done=[], wfail_caller=0, wfail_other=0, tid=None))
+                B.setdefault(a, dict(id=a, api=-1, flags=0, call_ts=0, ret=None, cbs=[], done=[], wfail_caller=0, wfail_other=0, tid=None, writes=[]))
                 B[a]["cbs"].append(dict(tid=tid, tpt=b, otherpool=aux, enter=ts, exit=None, nested=(open_call == a)))
             elif kind == EV_CB_EXIT:
                 for cb in reversed(B[a]["cbs"]):
@@ -170,6 +187,8 @@ def check_log(sc, events, part):
                 B[a]["done"].append(dict(tid=tid, ts=ts, sent=b >> 32, err=b & 0xffffffff, tpt=(c >> 32) & 0xffffffff,
                                          exits_seen=c & 0xffffffff, otherpool=aux, nested=(open_call == a)))
             elif kind == EV_WRITE:
+                if b in B:
+                    B[b]["writes"].append((a, c))
                 if c != 0 and b in B:
                     if tid == B[b]["tid"] and open_call == b:
                         B[b]["wfail_caller"] += 1
@@ -217,7 +236,17 @@ def check_log(sc, events, part):
             if cb["otherpool"]:
                 viol.append(("log:callback:wrong-pool-thread", "broadcast %d flags=%#x: callback ran with a thread object of another pool (tpt #%d on tid %d)" % (bid, fl, cb["tpt"], cb["tid"])))
         wf = b["wfail_caller"] + b["wfail_other"]
+        # which thread each queue write of this broadcast was addressed to (writes happen in target order;
+        # anything beyond the targets is the completion post)
+        order = [t for t in range(pool) if t in targeted and t in run and not (caller_in_pool and t == sc["caller_idx"])]
+        if caller_in_pool and sc["caller_idx"] in targeted and not (fl & F_SELF_DIRECT):
+            order = (order + [sc["caller_idx"]]) if one else sorted(order + [sc["caller_idx"]])
+        excused = set()
+        for i, (_k, err) in enumerate(sorted(b["writes"])):
+            if err != 0 and i < len(order):
+                excused.add(order[i])
         missing = 0
+        missing_excused = 0
         direct_foreign = 0
         for t in range(pool):
             lst = per.get(t, [])
@@ -237,6 +266,8 @@ def check_log(sc, events, part):
                 continue
             if not lst:
                 missing += 1
+                if t in excused and not (fl & F_FAIL_DIRECT):
+                    missing_excused += 1
                 continue
             cb = lst[0]
             if cb["tid"] != t:
@@ -250,7 +281,7 @@ def check_log(sc, events, part):
             if t >= pool:
                 viol.append(("log:callback:unknown-thread", "broadcast %d: callback for thread #%d" % (bid, t)))
         if missing:
-            allowed = wf if not (fl & F_FAIL_DIRECT) else 0
+            allowed = missing_excused
             if missing > allowed:
                 viol.append(("log:callback:missing-on-running-thread", "broadcast %d flags=%#x api=%d pool=%d caller=%s: %d running targeted thread(s) never ran the callback (%d failed writes)" % (
                     bid, fl, api, pool, cls[2], missing, wf)))
